@@ -61,7 +61,32 @@ fn random_bytes(r: &mut Rng) -> Vec<u8> {
 
 pub fn run(ctx: &mut Ctx) {
     let prop = "C15";
-    ctx.ev.rule = "(a) validator: generated transactions with zero/negative quantities, prices, fees, totals and ratios: validate() reports an error iff the property's predicate holds; compared with the Lean model's error count. (b) library under catch_unwind with a time limit: parse_file on arbitrary byte strings (random bytes, DSL alphabet soup, one-byte corruptions, non-ASCII) and calculate() on hostile ledgers (zero quantities and prices, 1e-28, magnitudes up to 7.9e28, sells first, dates 0001-01-01/9999-12-31/range edges): Ok or Err, never a panic — except inside known-finding class overflowMagnitude (D9). (d) the MCP tools: one pipelined session per 24 requests of malformed JSON texts (raw newlines inside strings, truncated arrays, BOM), hostile ledgers and random bytes over calculate_report, parse_transactions, convert_to_dsl, explain_matching: every request id answered exactly once, clean exit. (c) the real binary: the same inputs as files, missing files, unwritable and pre-existing --output paths, default PDF path with an existing file: on failure non-zero exit (not 101, no signal), empty stdout, --output untouched; on success exit 0. Non-trivial = inputs that are rejected cleanly, and validator cases with ≥ 1 bad field; distinct by input.".into();
+    ctx.ev.rule = "(a) validator: generated transactions with zero/negative quantities, prices, fees, totals and ratios: validate() reports an error iff the property's predicate holds; compared with the Lean model's error count. (b) library under catch_unwind with a time limit: parse_file on arbitrary byte strings (random bytes, DSL alphabet soup, one-byte corruptions, non-ASCII) and calculate() on hostile ledgers (zero quantities and prices, 1e-28, magnitudes up to 7.9e28, sells first, dates 0001-01-01/9999-12-31/range edges): Ok or Err, never a panic — except inside known-finding class overflowMagnitude (D9). (d) the MCP tools: one pipelined session per 24 requests of malformed JSON texts (raw newlines inside strings, truncated arrays, BOM), hostile ledgers and random bytes over calculate_report, parse_transactions, convert_to_dsl, explain_matching: every request id answered exactly once, clean exit. (e) the Schwab converter in-process on generated exports (free text of up to 200 mixed-width characters), with and without an awards file, and on damaged JSON: a result or an error, never a panic. (c) the real binary: the same inputs as files, missing files, unwritable and pre-existing --output paths, default PDF path with an existing file: on failure non-zero exit (not 101, no signal), empty stdout, --output untouched; on success exit 0. Non-trivial = inputs that are rejected cleanly, and validator cases with ≥ 1 bad field; distinct by input.".into();
+
+    // (e) the converter, in-process under catch_unwind: generated Schwab exports (every row kind, hostile
+    // spellings, free text of up to 200 mixed-width characters), the same with an awards file, and damaged
+    // JSON — a result or an error, never a panic
+    {
+        use cgt_converter::{BrokerConverter, schwab::{SchwabConverter, SchwabInput}};
+        let mut rr = Rng::new(ctx.seed ^ 0xC15E);
+        for i in 0..ctx.n(150, 6000) {
+            let mut jt = super::c18::gen_export(&mut rr);
+            if i % 5 == 4 {
+                // damage: cut the text, or replace one value by another JSON type
+                let cut = rr.below(jt.len() as u64 + 1) as usize;
+                let mut c = cut; while !jt.is_char_boundary(c) { c -= 1; }
+                if rr.chance(1, 2) { jt.truncate(c); } else { jt = jt.replacen("\"Quantity\":\"", "\"Quantity\":[", 1); }
+            }
+            let awards = if i % 3 == 0 { Some(format!("{{\"EquityAwards\":[{{\"Symbol\":\"{}\",\"VestDate\":\"01/0{}/2021\",\"VestFairMarketValue\":\"$1{}.50\"}}]}}", super::c18::long_text(&mut rr).chars().take(6).collect::<String>().replace(['"', '\\'], ""), 1 + rr.below(9), rr.below(10))) } else { None };
+            ctx.ev.evaluations += 1;
+            let input = SchwabInput { transactions_json: jt.clone(), awards_json: awards.clone() };
+            match std::panic::catch_unwind(|| SchwabConverter::new().convert(&input)) {
+                Err(p) => ctx.ev.violation("crash", format!("the Schwab converter panics: {}", crate::run_impl::panic_msg(p)), format!("# property C15\n# convert schwab: transactions JSON below{}\n{jt}\n", if awards.is_some() { " (an awards file was given too)" } else { "" })),
+                Ok(Ok(_)) => ctx.ev.count("convert:ok"),
+                Ok(Err(_)) => { ctx.ev.count("convert:clean-error"); ctx.ev.nontrivial.insert(jt.clone()); }
+            }
+        }
+    }
     let mut r = Rng::new(ctx.seed ^ 0xC15);
     let ex = run_impl::wide_exemptions();
     // (a) validator
